@@ -46,6 +46,15 @@ def month_of(v):
     return None
 
 
+def show(v):
+    """A month value for a message (ints beyond what Python prints, long digit strings)."""
+    if isinstance(v, int) and not isinstance(v, bool) and v.bit_length() > 4000:
+        return f"<an int of about {int(v.bit_length() * 0.30103)} digits>"
+    if isinstance(v, str) and len(v) >= 40:
+        return repr(v[:12] + "...(%d characters)" % len(v))
+    return repr(v)
+
+
 def expected(kind, v):
     m = month_of(v)
     if m is None:
@@ -65,7 +74,7 @@ def values(tier):
     for f in FULL:
         vs.extend(case_variants(f, lim))
     vs += ["{jan}", '"jan"', '"1"', "{1}", "janu", "sept", "Sept.", "foo", "", "ja", "maya", "Mayy", "december ", None, 2.0,
-           "²", "①", "1²", "9" * 5000, "0" * 4999 + "1",
+           "²", "①", "1²", "9" * 5000, "0" * 4999 + "1", 10 ** 5000, -(10 ** 5000),     # ints too large for Python to print (str() raises)
            # letters that only case *folding* (not lower-casing) maps onto month letters: no month spellings
            "\u017fep", "augu\u017ft", "\u017feptember", "\u017fept", "MA\u1e9e", "de\u00e7", "\u0131an", "JUN\u0307",
            # strings int() accepts although they are no digit strings
@@ -175,11 +184,11 @@ def run(P: Program, rep: Report):
                 want = expected(kind, v)
                 vk = ("month" if month_of(v) else "non-month") + ":" + type(v).__name__
                 if res[0] == "raise":
-                    bad.setdefault(f"{kind}:raises-{res[1].cls_name()}:{vk}", f"{MW[kind]} raises {res[1].cls_name()} for month value {(v if not isinstance(v, str) or len(v) < 40 else v[:12] + '...(%d characters)' % len(v))!r}")
+                    bad.setdefault(f"{kind}:raises-{res[1].cls_name()}:{vk}", f"{MW[kind]} raises {res[1].cls_name()} for month value {show(v)}")
                 elif res[0] != "value":
-                    bad.setdefault(f"{kind}:block:{vk}", f"{MW[kind]} returns {res[1]!r} for month value {v!r}")
+                    bad.setdefault(f"{kind}:block:{vk}", f"{MW[kind]} returns {res[1]!r} for month value {show(v)}")
                 elif not (res[1] == want and type(res[1]) is type(want)) or res[2] != "t" or res[3] != 2:
-                    bad.setdefault(f"{kind}:value:{vk}", f"{MW[kind]} turns month {v!r} into {res[1]!r}, the contract gives {want!r}")
+                    bad.setdefault(f"{kind}:value:{vk}", f"{MW[kind]} turns month {show(v)} into {show(res[1])}, the contract gives {show(want)}")
                 else:
                     okrows[(kind, vk)] = okrows.get((kind, vk), 0) + 1
     rep.count("value_table_rows", n)
